@@ -246,4 +246,6 @@ def c10_insitu_cases(tier, rng):
                       "cost": 30 if scr else 8})
         if len(cases) % 3 == 0:
             cases[-1]["history"] = ["used", "used_moved"][(len(cases) // 3) % 2]  # Device object solved before with other options
+        if kind in ("screening", "ramp", "pulse_back_to_start") and (k // len(kinds)) % 2 == 0:
+            cases[-1]["solve_twice"] = True  # one TDGLSolver object: the second run starts with the operators the first one left
     return cases
